@@ -26,6 +26,42 @@ def main (args : List String) : IO UInt32 := do
     for p in genPositions seed.toNat! n.toNat! do
       out.putStrLn (Wee.Spec.writeFen p)
     return 0
+  | ["mates", seed, n, limit] =>
+    -- `n` legal few-men positions in which the side to move forces mate within `limit` plies:
+    -- lines `<distance> <second-best info> <fen>`
+    let mut r : Rng := ⟨seed.toNat!.toUInt64 * 0x9E3779B97F4A7C15 + 7⟩
+    let mut found := 0
+    let mut tries := 0
+    let sets : Array String := #["KQk", "KRk", "KRRk", "KQQk", "KQRk", "KRkp", "KQkn", "KRBk", "KQkr", "kqK", "krK", "krrK", "kqKP", "KBBk", "KQPk"]
+    while found < n.toNat! && tries < 400000 do
+      tries := tries + 1
+      let (men, r1) := r.pick sets
+      r := r1
+      let mut cells : Array (Option (Wee.Spec.Color × Wee.Spec.Kind)) := Array.replicate 64 none
+      let mut ok := true
+      for ch in men.toList do
+        let (sq0, r2) := r.below 64
+        r := r2
+        -- kings of the side to be mated are biased to the edge
+        let (e, r3) := r.below 4
+        r := r3
+        let sq := if (ch == 'k' || ch == 'K') && e != 0 then (#[0,1,2,3,4,5,6,7,8,15,16,23,24,31,32,39,40,47,48,55,56,57,58,59,60,61,62,63] : Array Nat)[sq0 % 28]! else sq0
+        match Wee.Spec.charCell ch with
+        | some cell => if cells[sq]!.isSome then ok := false else cells := cells.set! sq (some cell)
+        | none => ok := false
+      if !ok then continue
+      let stronger : Wee.Spec.Color := if men.front.isUpper then .white else .black
+      let p : Wee.Spec.Pos := { cells, turn := stronger, wk := false, wq := false, bk := false, bq := false, ep := none, halfmove := 0, fullmove := 1 }
+      if !Wee.Spec.LegalPos p then continue
+      let st := Wee.conc p
+      match Wee.Outcome.mateDistance limit.toNat! st with
+      | some d =>
+        -- how many first moves keep the shortest mate?
+        let keep := ((Wee.legalMoves st).filter fun rr => Wee.Outcome.lostIn (d - 1) rr.2).length
+        out.putStrLn s!"{d} {keep} {Wee.Spec.writeFen p}"
+        found := found + 1
+      | none => pure ()
+    return 0
   | ["sanreqs"] =>
     -- FEN lines on stdin → `sanmatch` / `lan` request lines for every legal move and every spelling,
     -- plus negative cases (pseudo-legal but illegal moves, fully disambiguated)
